@@ -33,8 +33,8 @@ LEVEL_TEXT = (
     "server applied the last write), accumulated_change. The clause 'no progress records remain' is FALSE of the code: "
     "no_records_partial under the exact guard, stale_record_survives_witness / reverted_change_witness / blind_witness, and "
     "absorbed_change_witness for 'completed against the final state' (known findings C03-F1..F4, each replayed on the real "
-    "operator in every run; C03-F5, a lost wake-up after a 422 on a finalizer patch, lies in the part the model leaves to C06/C08 "
-    "and is found and replayed by the oracle only). The model is hand-written and tied per pass to whole-operator simulations; finalizers/deletion "
+    "operator in every run; C03-F5, a lost wake-up after a 422 on a finalizer patch, and C03-F6, the consequence of name-addressed "
+    "patches after delete+recreate, lie in the part the model leaves to C06/C08 and are found and replayed by the oracle only). The model is hand-written and tied per pass to whole-operator simulations; finalizers/deletion "
     "(C06), daemons (C09), consistency wait (C07) are outside this model and covered by the oracle only.")
 THEOREMS = [("Kopf.Props.C03", "Kopf.C03." + n) for n in [
     "terminates", "final_state", "converges", "quiescent_stays", "no_records_partial", "all_selected_completed",
@@ -361,6 +361,8 @@ def oracle(ctx: Ctx, sc: dict, tr: dict) -> dict:
                     out["class"] = "not-completed"
 
     accumulated(ctx, sc, tr, out)
+    if f.cross_uid:
+        out["findings"] = [x for x in out["findings"] if x != "unlisted"]
     return out
 
 
